@@ -243,6 +243,7 @@ class BitStringPayloadDecoder(AbstractSimplePayloadDecoder):
         while substrate.tell() - current_position < length:
             for component in decodeFun(
                     substrate, self.protoComponent, substrateFun=substrateFun,
+                    length=length - (substrate.tell() - current_position),
                     **options):
                 if isinstance(component, SubstrateUnderrunError):
                     yield component
@@ -376,7 +377,9 @@ class OctetStringPayloadDecoder(AbstractSimplePayloadDecoder):
         while substrate.tell() - original_position < length:
             for component in decodeFun(
                     substrate, OctetStringPayloadDecoder.protoComponent,
-                    substrateFun=substrateFun, **options):
+                    substrateFun=substrateFun,
+                    length=length - (substrate.tell() - original_position),
+                    **options):
                 if isinstance(component, SubstrateUnderrunError):
                     yield component
 
@@ -646,7 +649,13 @@ class ConstructedPayloadDecoderBase(AbstractConstructedPayloadDecoder):
         original_position = substrate.tell()
 
         while length == -1 or substrate.tell() < original_position + length:
-            for component in decodeFun(substrate, **options):
+            # a component can not be larger than what is left of the container
+            remaining = length
+            if length != -1:
+                remaining = original_position + length - substrate.tell()
+
+            for component in decodeFun(
+                    substrate, length=remaining, **options):
                 if isinstance(component, SubstrateUnderrunError):
                     yield component
 
@@ -779,7 +788,10 @@ class ConstructedPayloadDecoderBase(AbstractConstructedPayloadDecoder):
                             'Excessive components decoded at %r' % (asn1Spec,)
                         )
 
-                for component in decodeFun(substrate, componentType, **options):
+                for component in decodeFun(
+                        substrate, componentType,
+                        length=length - (substrate.tell() - original_position),
+                        **options):
                     if isinstance(component, SubstrateUnderrunError):
                         yield component
 
@@ -904,7 +916,10 @@ class ConstructedPayloadDecoderBase(AbstractConstructedPayloadDecoder):
             idx = 0
 
             while substrate.tell() - original_position < length:
-                for component in decodeFun(substrate, componentType, **options):
+                for component in decodeFun(
+                        substrate, componentType,
+                        length=length - (substrate.tell() - original_position),
+                        **options):
                     if isinstance(component, SubstrateUnderrunError):
                         yield component
 
@@ -1743,13 +1758,13 @@ class SingleItemDecoder(object):
                     raise error.PyAsn1Error('Indefinite length encoding not supported by this codec')
 
                 if outerLength is not None and outerLength >= 0:
-                    # an element inside a definite-length explicit tag
-                    # can not be larger than the tag's contents
+                    # an element inside a definite-length explicit tag or
+                    # container can not be larger than what is left of it
                     headerSize = substrate.tell() - substrate.markedPosition
                     if headerSize + max(length, 0) > outerLength:
                         raise error.PyAsn1Error(
-                            '%d-octet element does not fit into %d-octet '
-                            'explicit tag at %s' % (
+                            '%d-octet element does not fit into the %d '
+                            'octets left of the element around it at %s' % (
                                 headerSize + max(length, 0),
                                 outerLength, tagSet))
 
